@@ -35,9 +35,15 @@ the text:
   * `&&`, `||`, `!` and conditions are lowered to nested branches;
   * a counting loop (i from 0, `i < N` / `i != N`, one ++i; body = stores into header words / ring
     cells of block i) is summarised as  lfill <list> N (fun i => index) (fun i => value);
-  * any other loop (the CAS retry loop, the in_use scan) is unrolled UNROLL times; inputs consumed in
-    iteration j are ld<j> / cur<j> / spur<j>; a path that would enter iteration UNROLL + 1 ends with
-    the result -1 ("still looping") and the pool state reached;
+  * any other loop (the CAS retry loop, the in_use scan) is unrolled; inputs consumed in iteration j are
+    ld<j> / cur<j> / spur<j>; the path ends, with the result -1 ("still looping") and the pool state
+    reached, at the first atomic operation for which no input is left (the third load / compare-exchange
+    of the loop), wherever the text places that operation inside the iteration;
+  * a helper with several statements may be called in a condition (`if (is_exhausted(pool, pos))`);
+    an integer local keeps the expression that defined it, so that a byte count computed earlier
+    (`total = block_size * capacity`) is recognised where it is used; memset(area, 0, block_size *
+    capacity) over the whole data area is the per-block fill
+    lfill <list> capacity (fun i => blkidx <bits> block_size i) (fun _ => 0) of every header word;
   * every path ends in the same tuple: (result, fields..., lists..., [msz.., pointer fields]).
 
 Anything else raises LeafError: the caller writes it as a comment into coq/gen/Params_C05.v, which
@@ -97,12 +103,33 @@ def simp(t):
     return t
 
 
+def simp_bool(t):
+    """fold truth values of literals: (z2b (1)) -> true, ((1) =? (0)) -> false, (negb true) -> false"""
+    prev = None
+    while prev != t:
+        prev = t
+        t = re.sub(r"\(z2b \((-?\d+)\)\)", lambda m: "true" if int(m.group(1)) != 0 else "false", t)
+        t = re.sub(r"\(\((-?\d+)\) =\? \((-?\d+)\)\)", lambda m: "true" if int(m.group(1)) == int(m.group(2)) else "false", t)
+        t = t.replace("(negb true)", "false").replace("(negb false)", "true")
+        t = t.replace("(b2z true)", "(1)").replace("(b2z false)", "(0)")
+    return t
+
+
 def negb(t):
     return {"true": "false", "false": "true"}.get(t, "(negb %s)" % t)
 
 
 def _raise(msg):
     raise LeafError(msg)
+
+
+class Pending(Exception):
+    """no atomic input is left on this path: the path ends here with the text carried (result -1 and the state
+    reached); every enclosing `let` puts its binding in front while the exception travels up to the branch point"""
+
+    def __init__(self, text):
+        Exception.__init__(self, text)
+        self.text = text
 
 
 def is_ptr_t(n):
@@ -297,14 +324,30 @@ class Slicer:
         return simp(self.tr.z(n, st))
 
     def b(self, n, st):
-        return simp(self.tr.b(n, st))
+        return simp_bool(simp(self.tr.b(n, st)))
 
     def let(self, base, text, k):
         """bind text to a fresh name, continue with k(name)"""
         if re.match(r"^\(?-?\w+\)?$", text):
             return k(text)
         nm = self.fresh(base)
-        return "let %s := %s in\n  %s" % (nm, text, k(nm))
+        try:
+            return "let %s := %s in\n  %s" % (nm, text, k(nm))
+        except Pending as pe:
+            raise Pending("let %s := %s in\n  %s" % (nm, text, pe.text))
+
+    @staticmethod
+    def arm(thunk):
+        """text of one arm of a conditional: a path that runs out of atomic inputs ends inside the arm"""
+        try:
+            return thunk()
+        except Pending as pe:
+            return pe.text
+
+    def out_of_inputs(self, what, st):
+        if self.spec["kind"] == "alloc" and st.iter:
+            raise Pending(self.result("(-1)", st))
+        raise LeafError(what)
 
     # ---- symbolic pointers -------------------------------------------------
     # ("null",) ("pool",) ("ring", list) ("cell", list, idx) ("heap", k) ("undef",)
@@ -351,6 +394,24 @@ class Slicer:
                 return ("ring", lst)
         return p
 
+    def pure(self, n):
+        """no atomic operation, no call, no side effect: the expression may be evaluated again"""
+        k = n.get("kind")
+        if k in ("AtomicExpr", "CallExpr", "CompoundAssignOperator"):
+            return False
+        if k == "UnaryOperator" and n.get("opcode") in ("++", "--"):
+            return False
+        if k == "BinaryOperator" and n.get("opcode") == "=":
+            return False
+        return all(self.pure(c) for c in n.get("inner", []) if c)
+
+    def remember(self, name, node, text, st):
+        """integer local `name` was just given the value of the expression node (text = its translation)"""
+        if node is not None and self.pure(node):
+            st.frames[-1][("@def", name)] = (node, text)
+        else:
+            st.frames[-1].pop(("@def", name), None)
+
     def as_bytes(self, n, st):
         """integer expression added to a byte pointer -> (index text | None, bits | None, constant)"""
         n = strip_paren(n)
@@ -361,13 +422,15 @@ class Slicer:
                 ty, src = L.ctype(n), L.ctype(inner)
                 if ty is None or src is None or ty[1] < src[1]:
                     raise LeafError("narrowing cast inside a byte offset")
-                if strip_paren(inner).get("kind") == "BinaryOperator":
-                    return self.as_bytes(inner, st)
-            else:
+            if self.static_int(n) is None:
                 return self.as_bytes(inner, st)
         c = self.static_int(n)
         if c is not None:
             return (None, None, c)
+        if k == "DeclRefExpr":
+            d = st.frames[-1].get(("@def", n["referencedDecl"]["name"]))
+            if d is not None and simp(self.tr.z(d[0], st)) == d[1]:      # still the same value in this state
+                return self.as_bytes(d[0], st)
         if k == "BinaryOperator" and n.get("opcode") == "+":
             (i1, w1, c1), (i2, w2, c2) = self.as_bytes(n["inner"][0], st), self.as_bytes(n["inner"][1], st)
             if i1 is not None and i2 is not None:
@@ -545,6 +608,9 @@ class Slicer:
         if lv[0] == "local":
             if st.loop is not None and lv[1] in st.loop["frozen"]:
                 raise LeafError("a summarised loop changes the outer local " + lv[1])
+            d0 = st.frames[-1].get(("@def", lv[1]))
+            if d0 is not None and (val[0] != "int" or val[1] != d0[1]):
+                st.frames[-1].pop(("@def", lv[1]), None)        # the local no longer holds that expression
             if val[0] == "int":
                 return self.let(lv[1], val[1], lambda nm: (st.set(lv[1], ("int", nm)), k(st))[1])
             st.set(lv[1], val)
@@ -616,7 +682,7 @@ class Slicer:
             st.nload += 1
             idx = st.nload
         if idx > self.spec["loads"]:
-            raise LeafError("more atomic loads on a path than the %d expected" % self.spec["loads"])
+            self.out_of_inputs("more atomic loads on a path than the %d expected" % self.spec["loads"], st)
         ty = L.ctype(n)
         if ty is None:
             raise LeafError("atomic load of a non-integer")
@@ -758,6 +824,29 @@ class Slicer:
             for fld in list(self.P["data"]) + list(self.P["ring"]):
                 st.pf[fld] = ("null",)
             return k(st)
+        if p[0] == "blk" and p[1] is None and p[3] == 0:
+            # the whole data area: capacity blocks of block_size bytes, i.e. the per-block fill of every header word
+            if st.loop is not None:
+                raise LeafError("memset of the data area inside a summarised loop")
+            try:
+                cnt, w, off = self.as_bytes(args[2], st)
+            except LeafError as e:
+                raise LeafError("memset of the data area: its size is not block_size * count (%s)" % e)
+            if cnt is None or off != 0:
+                raise LeafError("memset of the data area: its size is not block_size * count")
+            arrs = sorted(set(self.P["hdr"].values()))
+            ivar = self.fresh("i")
+
+            def fill(i, s):
+                if i == len(arrs):
+                    return k(s)
+
+                def kk(nm):
+                    s.arrs[arrs[i]] = nm
+                    return fill(i + 1, s)
+                return self.let(arrs[i], "lfill %s %s (fun %s => (blkidx %d %s %s)) (fun %s => (0))" % (
+                    s.arrs[arrs[i]], cnt, ivar, w, s.fields["block_size"], ivar, ivar), kk)
+            return fill(0, st)
         if p[0] == "blk" and p[3] == 0:
             lvs = [("hdr", arr, self.blk_index(p, st)) for arr in sorted(set(self.P["hdr"].values()))]
 
@@ -783,6 +872,24 @@ class Slicer:
             return self.branch(c0["inner"][0], st, kt, lambda s: self.branch(c0["inner"][1], s, kt, kf))
         if k == "AtomicExpr" and len(c0.get("inner", [])) == 6:
             return self.cas(c0, st, kt, kf)
+        cc = strip_casts(c0)
+        if cc.get("kind") == "CallExpr" and self.callee(cc) not in ALLOC_CALLS and self.callee(cc) != NPO2 \
+                and self.callee(cc) not in NOOP_CALLS and self.callee(cc) != "memset" and self.needs_stmt_call(cc) is not None:
+            def after(v, s):
+                if v is None:
+                    raise LeafError("a call that yields nothing is used as a condition")
+                if v[0] == "ptr":
+                    t = negb(self.is_null(v[1]))
+                else:
+                    m = re.match(r"^\(?(-?\d+)\)?$", v[1])
+                    t = ("true" if int(m.group(1)) != 0 else "false") if m else "(negb (%s =? 0))" % v[1]
+                if t == "true":
+                    return kt(s)
+                if t == "false":
+                    return kf(s)
+                s1, s2 = s.copy(), s.copy()
+                return "(if %s\n  then %s\n  else %s)" % (t, self.arm(lambda: kt(s1)), self.arm(lambda: kf(s2)))
+            return self.call_stmt(cc, st, after)
         v = self.static_int(c0)
         if v is not None:
             return kt(st) if v else kf(st)
@@ -802,7 +909,7 @@ class Slicer:
         s1, s2 = st.copy(), st.copy()
         s1.facts[core] = pos
         s2.facts[core] = not pos
-        return "(if %s\n  then %s\n  else %s)" % (t, kt(s1), kf(s2))
+        return "(if %s\n  then %s\n  else %s)" % (t, self.arm(lambda: kt(s1)), self.arm(lambda: kf(s2)))
 
     def has_cas(self, n):
         if n.get("kind") == "AtomicExpr" and len(n.get("inner", [])) == 6:
@@ -826,12 +933,12 @@ class Slicer:
             st.ncas += 1
             idx = st.ncas
         if idx > self.spec["cas"]:
-            raise LeafError("more compare-exchanges on a path than the %d expected" % self.spec["cas"])
+            self.out_of_inputs("more compare-exchanges on a path than the %d expected" % self.spec["cas"], st)
         e = self.load_int(pe[1], st)
         d = self.z(des, st)
         s1, s2 = st.copy(), st.copy()
-        yes = self.store(cell, ("int", d), s1, kt)
-        no = self.store(pe[1], ("int", "cur%d" % idx), s2, kf)
+        yes = self.arm(lambda: self.store(cell, ("int", d), s1, kt))
+        no = self.arm(lambda: self.store(pe[1], ("int", "cur%d" % idx), s2, kf))
         return "(if ((cur%d =? %s) && (spur%d =? 0))\n  then %s\n  else %s)" % (idx, e, idx, yes, no)
 
     # ---- statements (continuation-passing) -------------------------------------------
@@ -899,8 +1006,9 @@ class Slicer:
                     if init is not None and self.needs_stmt_call(init) is not None:
                         return self.call_stmt(self.needs_stmt_call(init), s2, lambda v, s3: self.store(
                             lv, self.conv(v, d), s3, lambda s4: decls(i + 1, s4)))
-                    return self.store(lv, ("int", self.z(init, s2) if init is not None else "0"), s2,
-                                      lambda s3: decls(i + 1, s3))
+                    t0 = self.z(init, s2) if init is not None else "0"
+                    self.remember(d["name"], init, t0, s2)
+                    return self.store(lv, ("int", t0), s2, lambda s3: decls(i + 1, s3))
                 if is_ptr_t(d):
                     if init is None:
                         s2.set(d["name"], ("ptr", ("undef",)))
@@ -937,7 +1045,10 @@ class Slicer:
             if self.has_cas(rhs):
                 raise LeafError("compare-exchange result stored in a variable")
             v = ("int", self.z(rhs, st))
-            return self.store(self.lval(lhs, st), v, st, rest)
+            lv0 = self.lval(lhs, st)
+            if lv0[0] == "local":
+                self.remember(lv0[1], rhs, v[1], st)
+            return self.store(lv0, v, st, rest)
         if k == "CompoundAssignOperator":
             lhs, rhs = s["inner"]
             if is_ptr_t(lhs):
@@ -1060,8 +1171,8 @@ class Slicer:
         if st.iter or st.loop is not None:
             raise LeafError("nested loops")
         def iteration(j, s):
-            if j > UNROLL:
-                return self.pending(s)
+            if j > UNROLL + 1:
+                raise LeafError("a loop that is not a counting loop goes round without an atomic load / compare-exchange")
             s.iter, s.iter_loads, s.iter_cas = j, 0, 0
 
             def cont(s1):
@@ -1222,7 +1333,7 @@ class Slicer:
             if rt != "void":
                 raise LeafError("control reaches the end of a non-void function")
             return self.result("0", s)
-        body = self.exec([self.body_of(f)], st, kfall, kret, None)
+        body = self.arm(lambda: self.exec([self.body_of(f)], st, kfall, kret, None))
         sig = []
         if kind == "init":
             sig.append("(npo2 : Z -> Z)")
